@@ -108,3 +108,91 @@ func VerifReadyOrder() {
 	}
 	zzverif.Cover("ready_order_done")
 }
+
+// Rotation: the renewal is requested not before the certificate's half-life and no later than one minute after it;
+// a failed renewal is retried 10 s later and leaves the served SVID alone; a successful one replaces it; every fetch
+// (including the retry) uses a new private key.
+//
+//verif:harness prop=C19 name=rotation threads=3 sched=delay preempt=2 t_preempt=3 unwind=14 witness=lenient
+func VerifRotation() {
+	vKeys = nil
+	t0 := zzverif.TimeFromNanos(1_000_000_000_000)
+	clk := zzverifstubs.NewClock(t0)
+	validity := zzverif.Int64("validity_ns")
+	zzverif.Assume(validity >= int64(20*time.Second))
+	zzverif.Assume(validity <= int64(3*time.Minute))
+	zzverif.Assume(validity%2 == 0)
+	cert1 := &x509.Certificate{NotBefore: t0, NotAfter: t0.Add(time.Duration(validity))}
+	cert2 := &x509.Certificate{NotBefore: t0.Add(time.Duration(validity)), NotAfter: t0.Add(time.Duration(validity) + 100*time.Hour)}
+	renewalFails := zzverif.Bool("first_renewal_fails")
+	fetches := 0
+	var fetchTimes []time.Time
+	s := New(Options{Log: vNopLogger(), RequestSVIDFn: func(ctx context.Context, csr []byte) ([]*x509.Certificate, error) {
+		var r []*x509.Certificate
+		var err error
+		zzverif.Ghost(func() {
+			fetches++
+			fetchTimes = append(fetchTimes, clk.Now())
+			switch {
+			case fetches == 1:
+				r = []*x509.Certificate{cert1}
+			case fetches == 2 && renewalFails:
+				err = errIssuer
+			default:
+				r = []*x509.Certificate{cert2}
+			}
+		})
+		return r, err
+	}})
+	s.clock = clk
+	ctx, cancel := context.WithCancel(context.Background())
+	runDone := make(chan struct{})
+	go func() {
+		s.Run(ctx)
+		close(runDone)
+	}()
+	zzverif.WaitQuiescent()
+	zzverif.Assert(fetches == 1, "initial_fetch")
+	src := s.SVIDSource()
+	half := t0.Add(time.Duration(validity / 2))
+	// let time pass, always exactly to the next armed timer
+	for i := 0; i < 5 && fetches < 2; i++ {
+		d, ok := clk.NextDeadline()
+		zzverif.Assert(ok, "rotation_timer_armed")
+		zzverif.Assert(!d.After(clk.Now().Add(time.Minute)), "wakes_at_least_every_minute")
+		clk.AdvanceTo(d)
+		zzverif.WaitQuiescent()
+		if clk.Now().Before(half) {
+			zzverif.Assert(fetches == 1, "no_renewal_before_half_life")
+		}
+	}
+	zzverif.Assert(fetches == 2, "renewal_requested")
+	zzverif.Assert(!fetchTimes[1].Before(half), "no_renewal_before_half_life")
+	zzverif.Assert(!fetchTimes[1].After(half.Add(time.Minute)), "renewal_no_later_than_one_minute_after_half_life")
+	svid, err := src.GetX509SVID()
+	zzverif.Assert(err == nil, "svid_served")
+	if renewalFails {
+		zzverif.Assert(svid.Certificates[0] == cert1, "failed_renewal_leaves_served_svid_alone")
+		d, ok := clk.NextDeadline()
+		zzverif.Assert(ok, "retry_timer_armed")
+		zzverif.Assert(d.Equal(fetchTimes[1].Add(10*time.Second)), "failed_renewal_retried_after_10s")
+		clk.AdvanceTo(d)
+		zzverif.WaitQuiescent()
+		zzverif.Assert(fetches == 3, "failed_renewal_retried_after_10s")
+		svid, err = src.GetX509SVID()
+		zzverif.Assert(err == nil, "svid_served")
+	}
+	zzverif.Assert(svid.Certificates[0] == cert2, "served_svid_is_latest_successful_fetch")
+	if zzverif.Symbolic() {
+		zzverif.Assert(len(vKeys) == fetches, "one_fresh_key_per_fetch")
+		for i := 0; i < len(vKeys); i++ {
+			for j := i + 1; j < len(vKeys); j++ {
+				zzverif.Assert(vKeys[i] != vKeys[j], "one_fresh_key_per_fetch")
+			}
+		}
+		zzverif.Assert(svid.PrivateKey == vKeys[len(vKeys)-1], "served_key_belongs_to_served_certificate")
+	}
+	cancel()
+	<-runDone
+	zzverif.Cover("rotation_done")
+}
